@@ -23,6 +23,10 @@ def obligations(tier):
     for ix in idxs:
         obs.append(Ob(f"C04.integrated.note_section[{ix}]", "CH", "harness.h_integrated", "note_section", 1200, {"VF_IDX": ix, "VF_ORDER": 2},
                       funcs=(IN + "InstrumentTrack.from_chart_lines", IN + "NoteEvent._compute_hopo_state"), bounds="symbolic resolution and gaps through the real parser"))
+    obs.append(Ob("C04.framing", "CH", "harness.h_chart", "framing", 300, funcs=("chartparse.chart.Chart._partition_lines_by_data_section",),
+                  bounds="3 sections x <=2 symbolic body lines of any length (blank lines included): this section's parser receives exactly its own body lines"))
+    obs.append(Ob("C04.hopo_twice", "CH", "harness.h_instrument", "hopo_twice", 900, funcs=(IN + "NoteEvent._compute_hopo_state",),
+                  bounds="the same note pair at the same distance judged at two symbolic resolutions in one process (96 note pairs): each decision follows its own resolution"))
     return obs
 
 
